@@ -8,6 +8,6 @@ cd "$VERIF_ROOT/harness" || exit 1
 cargo build --release -p vcheck || exit 1
 # optional accelerators (a failure here is reported by the corresponding check, not by setup)
 "$VERIF_ROOT/tools/build_features.sh" || echo "setup: feature builds failed (C16 will report)"
-( cd "$VERIF_ROOT/harness/fuzzhost" && cargo +nightly fuzz build session --target-dir "$VERIF_ROOT/harness/target/fuzz" >/dev/null 2>&1 ) || echo "setup: fuzz build unavailable (C03 degrades to its proptest part)"
+( cd "$VERIF_ROOT/harness/fuzzhost" && cargo +nightly fuzz build session --target-dir "$VERIF_ROOT/harness/target/fuzz" >/dev/null 2>&1 && cargo +nightly fuzz build lockstep --target-dir "$VERIF_ROOT/harness/target/fuzz" >/dev/null 2>&1 ) || echo "setup: fuzz build unavailable (C03 and the lock-step checks degrade to their proptest parts)"
 "$VERIF_ROOT/harness/target/release/vcheck" --warm || true
 exit 0
